@@ -128,11 +128,29 @@ class Explorer:
             # module-level / class-level constant of the repository (folded, never executed)
             try:
                 m, ce = self.repo.const_expr(k)
-                v = self.repo.fold(m, ce)
-                if isinstance(v, (int, float, str, bytes, tuple, bool)) or v is None:
+                v = self.repo.fold(m, ce, symbolic=True)
+                if isinstance(v, (int, float, str, bytes, tuple, bool, dict, frozenset)) or v is None:
                     return v
+                if isinstance(v, (list, set)):
+                    return tuple(v) if isinstance(v, list) else frozenset(v)
             except Exception:
                 pass
+        if isinstance(e, ast.Attribute) and k is not None and k.count(".") == 1 and e.attr.isupper() and isinstance(e.value, ast.Name) \
+                and self.func.cls is not None and self.func.params and e.value.id == self.func.params[0] \
+                and e.attr not in self.repo.mutated_attrs():
+            # class-level constant read through the instance (`self.WORKER_BOOT_ERROR`, `self.STOP_SIGNALS`)
+            for cq in self.repo.mro(self.func.cls.qualname):
+                ci = self.repo._classes.get(cq)
+                if ci is not None and e.attr in ci.attrs:
+                    try:
+                        v = self.repo.fold(ci.module, ci.attrs[e.attr], symbolic=True)
+                    except Exception:
+                        break
+                    if isinstance(v, list):
+                        v = tuple(v)
+                    if isinstance(v, (int, float, str, bytes, tuple, bool, dict, frozenset)) or v is None:
+                        return v
+                    break
         if isinstance(e, ast.Attribute) and k is not None and "." in k:
             # symbolic constant of an imported module (signal.SIGTERM, errno.ESRCH, ...)
             root = e
@@ -309,6 +327,19 @@ class Explorer:
                     return l - r
                 if isinstance(e.op, ast.Mult):
                     return l * r
+                if isinstance(l, int) and isinstance(r, int) and not isinstance(l, bool) and not isinstance(r, bool):
+                    if isinstance(e.op, ast.RShift):
+                        return l >> r
+                    if isinstance(e.op, ast.LShift):
+                        return l << r
+                    if isinstance(e.op, ast.BitAnd):
+                        return l & r
+                    if isinstance(e.op, ast.BitOr):
+                        return l | r
+                    if isinstance(e.op, ast.FloorDiv) and r != 0:
+                        return l // r
+                    if isinstance(e.op, ast.Mod) and r != 0:
+                        return l % r
             except Exception:
                 return UNKNOWN
             return UNKNOWN
